@@ -365,7 +365,7 @@ func setPatchDiffElementContext(patch []patchElement, d *DiffElement) ([]patchEl
 		return patch, nil
 	}
 	switch {
-	case (patch[2].Op == "test" || patch[2].Op == "add") && thirdIndex <= secondIndex:
+	case (patch[2].Op == "test" || patch[2].Op == "add") && thirdIndex <= secondIndex && firstIndex == thirdIndex-1:
 		// Before and after context.
 		before, err := NewJsonNode(patch[0].Value)
 		if err != nil {
@@ -387,7 +387,7 @@ func setPatchDiffElementContext(patch []patchElement, d *DiffElement) ([]patchEl
 		}
 		d.After = []JsonNode{after}
 		return patch[1:], nil
-	case patch[1].Op == "test" && (patch[2].Op == "replace" || patch[2].Op == "remove") && firstIndex < secondIndex:
+	case patch[1].Op == "test" && (patch[2].Op == "replace" || patch[2].Op == "remove") && firstIndex == secondIndex-1:
 		// Before context with replace / remove.
 		before, err := NewJsonNode(patch[0].Value)
 		if err != nil {
